@@ -4,11 +4,12 @@ Require Extraction.
 Require Import ExtrOcamlBasic.
 From Coq Require Import List NArith.
 From FT Require Import Model.Base Model.Codec Model.Local Model.Records Model.Spsc Model.Collector
-     Model.System Oracles.OC12.
+     Model.System Model.Jaeger Oracles.OC12 Oracles.OJaeger.
 Extraction Language OCaml.
 Extraction "model.ml"
   N.add N.mul N.sub N.eqb N.ltb N.leb N.of_nat N.to_nat N.compare
   encode_traceparent decode_traceparent display_trace display_span from_str_trace from_str_span
   serde_ser_trace serde_ser_span serde_de_trace serde_de_span
   P_C12 valid_tp
-  sys_init step run to_span_records.
+  sys_init step run to_span_records
+  report_datagrams encode_records P_C19_jaeger P_C20.
